@@ -17,7 +17,7 @@ def GoMap.set {K V : Type} [DecidableEq K] (m : GoMap K V) (k : K) (v : V) : GoM
   fun k' => if k' = k then some v else m k'
 
 /-- A loop body of the shape `m[k] = g(m[k], v)` — it reads and writes only the entry of the key it is
-    visiting.  Both table-building loops of conf/types_table.go have this shape. -/
+    visiting.  The map loop of conf.CreateTypesTable has this shape. -/
 def keyedStep {K V W : Type} [DecidableEq K] (g : Option V → W → V) (m : GoMap K V) (e : K × W) : GoMap K V :=
   m.set e.1 (g (m e.1) e.2)
 
@@ -37,16 +37,6 @@ def typesFromMapStep : Option Tag → Tag → Tag := fun _ t => t
 /-- the table built from the entries of an environment map, visited in the order `entries` -/
 def typesFromMap (entries : List (String × Tag)) : GoMap String Tag :=
   keyedLoop typesFromMapStep GoMap.empty entries
-
-/-! ### conf.FieldsFromStruct: merging the table of an embedded struct
-    `for name, typ := range FieldsFromStruct(f.Type) { if _, ok := types[name]; ok { types[name] = Tag{Ambiguous: true} } else { types[name] = typ } }` -/
-
-def ambiguousTag : Tag := { ty := "", method := false, ambiguous := true }
-
-def mergeStep : Option Tag → Tag → Tag := fun old t => if old.isSome then ambiguousTag else t
-
-def mergeEmbedded (types : GoMap String Tag) (embedded : List (String × Tag)) : GoMap String Tag :=
-  keyedLoop mergeStep types embedded
 
 /-! ### conf.(*Config).Check: two loops that return the first error they meet -/
 
